@@ -1264,7 +1264,20 @@ function canonLonghand(name, comps, fx) {
   if (name === 'font-family') return canonFamily(comps);
   return serComps(comps);
 }
-function customText(toks) { let s = ''; for (const t of toks) { if (t.t !== 'ws') s += t.raw; else if (!s.endsWith(' ')) s += ' '; } return s.trim(); }
+// custom properties: the token stream with numbers normalised and reducible calc() reduced; identifiers,
+// hashes and units stay as written (nothing that is rendered depends on more than that)
+function customHook(c) {
+  switch (c.t) {
+    case 'ident': return c.v;
+    case 'hash': return '#' + c.v;
+    case 'dim': return fmtNum(c.n) + c.unit;
+    case 'func':
+      if (c.name === 'calc') { const t = calcText(c, true); if (typeof t === 'string') return t; }
+      return null;
+    default: return null;
+  }
+}
+function customText(toks) { return serComps(toComps(toks), customHook); }
 function hasBadToken(comps) {
   for (const c of comps) {
     if (c.t === 'badstr' || c.t === 'badurl' || c.t === ')' || c.t === ']' || c.t === '}') return true;
